@@ -87,7 +87,7 @@ func varUInt10(v uint64) []byte {
 // whose 10-octet VarUInt length equals what "wrapper length - annot_length" gives when computed in unsigned 64-bit
 // arithmetic. Every single field is a legal encoding; only their relation is impossible.
 func wrapAroundAtom(r *prng.Rand) []byte {
-	w := uint64(r.Range(2, 4))        // declared wrapper length
+	w := uint64(r.Range(2, 4))         // declared wrapper length
 	a := w - 1 + uint64(r.Range(1, 4)) // annot_length: more than the wrapper has left
 	wrapper := []byte{0xe0 | byte(w), 0x80 | byte(a)}
 	for k := uint64(1); k < w; k++ {
